@@ -102,6 +102,7 @@ def parts(tier):
     return [Part("events", strategy=evrun.event_case("events", terminal_mode="none"), examples=700 if q else 15000, timeout=300),
             Part("near_boundary", strategy=_near_boundary(), examples=400 if q else 8000, timeout=300),
             Part("tiny_steps", strategy=_tiny_steps(), examples=200 if q else 4000, timeout=300),
+            Part("multi_crossing", strategy=_multi_crossing(), examples=200 if q else 4000, timeout=300),
             Part("junctions", strategy=_junctions(), examples=300 if q else 6000, timeout=300),
             Part("short_steps_deriv", strategy=_short_steps_deriv(), examples=200 if q else 4000, timeout=300)]
 
@@ -127,6 +128,13 @@ def _short_steps_deriv(draw):
         evs.append(p)
     return dict(part="short_steps_deriv", method=method, dtype="float64", prob=prob, t0=t0, tf=tf, dt=h, rtol=1e-5, atol=1e-5,
                 dense=draw(st.booleans()), events=evs)
+
+
+def _multi_crossing():
+    """3 or 5 crossings of one event function inside one step (the generator of C08's part of the same name): whichever of
+    them is reported must be genuine, inside its step and compatible with the requested direction"""
+    from pbt.props import c08
+    return c08._multi_crossing().map(lambda c: dict(c, part="multi_crossing"))
 
 
 def _tiny_steps():
